@@ -250,7 +250,8 @@ class Ctx:
                 self._bridged = True
                 self.bridge_units = units
                 c2lean.regen(self, units)
-                targets += [t for t in c2lean.bridge_targets(units) if t not in targets]
+                self.bridge_modules = c2lean.bridge_targets(units, prop=self.prop)
+                targets += [t for t in self.bridge_modules if t not in targets]
         except Exception as e:      # the translator itself failing is a broken tie, not a pass
             self.broken.append(("P-BROKEN", "c2lean", "translator failed: %r" % (e,)))
         with open(os.path.join(LEAN_DIR, ".lock"), "w") as lk:
@@ -300,14 +301,13 @@ class Ctx:
             self.broken.append(("P-BROKEN", props_module, "no theorems found"))
             return
         extra_modules = list(extra_modules)
-        for u in getattr(self, "bridge_units", []):
-            # bridge theorems of the units this property's model uses (Bridge/<Unit>.lean)
-            bm = "PdshVerif.Bridge." + u
+        for bm in getattr(self, "bridge_modules", []):
+            # bridge theorems of the translated functions this property's model uses (Bridge/<Module>.lean)
             try:
                 bn = self.props_theorems(bm)
             except OSError:
                 bn = []
-            if not os.path.exists(os.path.join(LEAN_DIR, ".lake", "build", "lib", "lean", "PdshVerif", "Bridge", u + ".olean")):
+            if not os.path.exists(os.path.join(LEAN_DIR, ".lake", "build", "lib", "lean", *bm.split(".")) + ".olean"):
                 # the bridge no longer builds against the re-translated source (already recorded by lean_build):
                 # its theorems are undischarged obligations; do not import the module (the audit file would not load)
                 for n in bn:
